@@ -301,12 +301,35 @@ def c01():
             ck.add("evaluations")
             ck.add("random_big_workloads")
             distinct.add((p.key, "big", b, page))
+        # scale beyond what one event per record can carry: >= 65 536 records / values in one page / level entries in one chunk
+        if p.key.startswith("hist:") or p.key in ("fixed:Flat", "fixed:AllTypes", "fixed:Document"):
+            small_schema = p.key.startswith("hist:")
+            big = [(66000, [66000], 100000), (66000, [40000, 26000], 1000)]
+            if not q and small_schema:
+                big += [(1200000, [1200000], 2000000), (300000, [100000, 200000], 70000)]
+            for n, batches, page in big:
+                if p.key == "fixed:AllTypes" and q and page == 1000:
+                    continue
+                p.cases.append({"page": page, "codec": CODECS[(pi + n) % 3], "poff": 2, "ops": [], "bulk": {"n": n, "batches": batches}})
+                ck.add("evaluations")
+                ck.add("bulk_workloads")
+                distinct.add((p.key, "bulk", n, page))
+        # scale: more than 255 row groups in one file, more than 255 pages in one chunk (counters narrower than int would wrap)
+        if p.key.startswith("hist:"):
+            nsc = 300 if q else 700
+            for hist, page in (("aw" * nsc, 1000), ("a" * nsc + "w", 1), ("a" * (nsc // 2) + "w" + "a" * (nsc // 2) + "w", 1)):
+                p.cases.append({"page": page, "codec": CODECS[(pi + page) % 3], "poff": 5, "ops": ops_of(hist, cyc), "light": True,
+                                "reads": [{"mode": "plain"}]})
+                ck.add("evaluations")
+                ck.add("scale_workloads")
+                distinct.add((p.key, "scale", hist[:4], page))
     ck.cov["distinct_nontrivial"] = len(distinct)
     ck.cov["rule"] = ("for each schema of F (all 8 types x required/optional/repeated, nested, repeated and embedded groups): every split of "
                       "n <= %d records into non-empty batches (TLC ExportHist) x page size {1,2,3,4,n+1} x codec, records = TLC-exported structures "
                       "concretised from adversarial value pools (min/max ints, +-0, +-Inf, NaN payloads, empty/long/non-UTF8/sentinel strings), "
                       "half of the cases mutate the record after Add, every case is read twice (plain, and re-checking every scanned record after "
-                      "each later Scan); plus seeded random workloads up to 3000 records, lists up to 300, 70 kB strings; non-trivial = more than "
+                      "each later Scan); plus seeded random workloads up to 3000 records, lists up to 300, 70 kB strings, files with 300 (700) row groups / 300 (700) pages per chunk, and bulk "
+                      "workloads of 66 000 (1 200 000) index-generated records in one page / several pages (compared in Go, judged as one event); non-trivial = more than "
                       "one batch or more than one page; distinct by (schema, split, page size, codec)" % nmax)
     ck.cov["exhaustive"] = False
     run_programs(ok, "c01", timeout=1800)
@@ -372,8 +395,8 @@ def c12():
         raise HarnessError("stats schema does not build: " + p.build["detail"])
     load_schemas([p])
     pats = export_patterns(3 if q else 4, 3)     # sequences over {null, tok 0..2}
-    poffs = list(range(0, 20, 5 if q else 1))
-    poffs = [(x + ck.seed) % 20 for x in poffs]
+    poffs = list(range(0, 32, 5 if q else 1)) + ([20, 24] if q else [])     # the string pool has 32 entries (20..31: long shared prefixes, 0xff bytes)
+    poffs = sorted({(x + ck.seed - 1) % 32 for x in poffs})
     distinct = set()
     for pi, pat in enumerate(pats):
         for poff in poffs:
@@ -399,9 +422,9 @@ def c12():
         recs = []
         for _ in range(n):
             def opt():
-                return [] if ck.rng.random() < 0.3 else [ck.rng.randrange(20)]
-            recs.append([ck.rng.randrange(20) for _ in range(7)] + [opt() for _ in range(8)] +
-                        [[ck.rng.randrange(20) for _ in range(ck.rng.randrange(0, 4))] for _ in range(4)])
+                return [] if ck.rng.random() < 0.3 else [ck.rng.randrange(32)]
+            recs.append([ck.rng.randrange(32) for _ in range(7)] + [opt() for _ in range(8)] +
+                        [[ck.rng.randrange(32) for _ in range(ck.rng.randrange(0, 4))] for _ in range(4)])
         p.cases.append({"page": ck.rng.choice([3, 8, 1000]), "codec": CODECS[b % 3], "poff": 0, "ops": ops_of("a" * n + "w", recs)})
         ck.add("evaluations")
         distinct.add(("rand", b))
@@ -560,6 +583,14 @@ def c11():
     q = ck.quick()
     mc_reader(ck, ["TruncationRejected", "TypeOK"], "TrustFooterOnly", "TruncationRejected")
     ok = env_files(ck, ["AllTypes", "Document"] if q else None, 4 if q else 10, [LAYOUT_MULTI] if q else [LAYOUT_ONE, LAYOUT_MULTI])
+    # files whose DATA looks like the tail of a file: the strings "\xff\xff\xff\xffPAR1" and "PAR1" (string pool entries 28, 29)
+    for p in ok:
+        extra = []
+        for c in p.cases[:3]:
+            c2 = dict(c)
+            c2["poff"] = 27
+            extra.append(c2)
+        p.cases += extra
     for p in ok:
         for c in p.cases:
             c["reads"] = [{"mode": "plain"}, {"mode": "trunc", "alltrunc": True}]
@@ -659,10 +690,10 @@ def c05():
         k4 = {json.dumps(f, sort_keys=True) for f in u4}
         only4 = [f for f in u4 if json.dumps(f, sort_keys=True) not in k3]
         only5 = [f for f in u5 if json.dumps(f, sort_keys=True) not in k4]
-        forests = small + ck.rng.sample(only4, 330) + ck.rng.sample(only5, 110)
+        forests = small + only4 + ck.rng.sample(only5, 80)
     else:
         forests = export_shapes(5)
-    ck.cov["universe"] = "all %d schemas with <= 3 nodes + 330 seeded of the 972 with 4 nodes + 110 seeded of the 6804 with 5 nodes" % len(small) if q else \
+    ck.cov["universe"] = "all %d schemas with <= 4 nodes + 80 seeded of the 6804 with 5 nodes" % (len(small) + len(only4)) if q else \
         "all %d schemas with <= 5 nodes (depth <= 3, <= 3 children per group)" % len(forests)
     from wfam import build_and_run
     progs = universe_programs(forests, toff_fn=lambda i, f: stable_toff(f))
@@ -778,9 +809,30 @@ def run_tool(name, job, tag, timeout=3600):
     os.makedirs(d, exist_ok=True)
     jp, ep = os.path.join(d, "job.json"), os.path.join(d, "ev.ndjson")
     json.dump(job, open(jp, "w"))
-    r = subprocess.run([exe, jp, ep], capture_output=True, text=True, timeout=timeout)
+    from vlib import limit_memory
+    from wfam import FATAL_MARKS
+    r = subprocess.run([exe, jp, ep], capture_output=True, text=True, timeout=timeout, preexec_fn=limit_memory)
     if r.returncode != 0:
-        raise HarnessError("%s failed: %s" % (name, r.stderr[-1500:]))
+        # a Go runtime fatal error (unbounded allocation ...) inside a library call kills the tool: find the op, re-run it alone
+        # twice; reproducible fatal errors are reported as a synthetic one-case sweep with one bad entry (a verdict), all else is exit 2
+        if any(m in r.stderr for m in FATAL_MARKS) and len(job.get("ops", [])) > 1:
+            evs = []
+            for l in (open(ep) if os.path.exists(ep) else []):
+                try:
+                    evs.append(json.loads(l))
+                except json.JSONDecodeError:
+                    pass       # the line that was being written when the process died
+            for i, o in enumerate(job["ops"]):
+                json.dump({"ops": [o]}, open(jp, "w"))
+                rr = [subprocess.run([exe, jp, ep + ".1"], capture_output=True, text=True, timeout=timeout, preexec_fn=limit_memory) for _ in range(2)]
+                if all(x.returncode != 0 and any(m in x.stderr for m in FATAL_MARKS) for x in rr):
+                    mark = [m for m in FATAL_MARKS if m in rr[0].stderr][0]
+                    o2 = {k: v for k, v in o.items() if k not in ("vectors",)}
+                    return evs + [{"ev": "RunsAll", "op": o.get("op"), "w": o.get("w", 0), "kind": o.get("kind", ""), "count": 1, "nbad": 1,
+                                   "bad": [{"levels": o.get("levels", "the seeded sweep of this op"), "stream": [],
+                                            "problem": "the process dies in this op: " + mark, "op": o2}]}]
+            raise HarnessError("%s died with a runtime fatal error that no single op reproduces: %s" % (name, r.stderr[:800]))
+        raise HarnessError("%s failed (exit %s): %s" % (name, r.returncode, r.stderr[:600] + " ... " + r.stderr[-900:]))
     return [json.loads(l) for l in open(ep) if l.strip()]
 
 
@@ -866,6 +918,12 @@ def c07():
         for kind in ("def", "rep"):
             ops.append({"op": "encgrid", "w": w, "kind": kind, "maxlen": 17 if q else 33, "nruns": 26 if q else 70,
                         "runlens": [63, 64, 65, 496, 503, 504, 505, 512, 513], "sample": 1500 if q else 4000})
+    # runs whose header needs 3 and 4 LEB128 bytes (run length >= 8192 and >= 1048576), and the 16-bit boundary
+    huge = [8191, 8192, 16383, 16384, 65535, 65536, 70000] + ([] if q else [1048575, 1048576, 1100000])
+    for w in (1, 2) if q else (1, 2, 3, 4):
+        for kind, op in (("def", "encruns"), ("def", "decruns"), ("rep", "decruns")):
+            ops.append({"op": op, "w": w, "kind": kind, "count": 30 if q else 120, "seed": ck.seed * 1000 + w, "nruns": 3,
+                        "runlens": huge + [1, 7, 8, 9], "sample": 0})
     # ---- decoder side: every segmentation of every short sequence (TLC), random long ones
     segcases = []
     for w, n in ((1, 6 if q else 8), (2, 3 if q else 4), (3, 2), (4, 2)):
@@ -876,6 +934,12 @@ def c07():
     for i, c in enumerate(segcases[:cap]):
         ops.append({"op": "dec", "w": c["w"], "kind": "def" if i % 5 else "rep", "levels": c["levels"],
                     "segs": [{"rle": s["rle"], "n": s["n"]} for s in c["segs"]], "pad": (i * 7) % (1 << c["w"])})
+    # one long bit-packed run between two RLE runs, group counts around every power-of-two payload size
+    for w in (1, 2, 3, 4):
+        for g in (62, 63, 64, 65, 85, 86, 127, 128, 129, 170, 171, 255, 256, 257, 511, 512, 513) + (() if q else (1023, 1024, 2047, 2048, 8191, 8192)):
+            lv = [1] * 13 + [(i * 7 + i // 3) % (1 << w) for i in range(8 * g)] + [0] * 9
+            ops.append({"op": "dec", "w": w, "kind": "def" if g % 2 else "rep", "levels": lv, "pad": 0, "big": True,
+                        "segs": [{"rle": True, "n": 13}, {"rle": False, "n": 8 * g}, {"rle": True, "n": 9}]})
     for w in (1, 2, 3, 4):
         for kind in ("def", "rep"):
             ops.append({"op": "decruns", "w": w, "kind": kind, "count": 1500 if q else 20000, "seed": ck.seed * 100 + w, "nruns": 5,
@@ -1473,6 +1537,24 @@ def c15():
     for i, f in enumerate(forests):
         d = decorate_signed(f, stable_toff(f))
         progs.append(Program(shape_key(d), render(d), d))
+    # shapes beyond the node budget of the universe: deep chains of groups followed by siblings at every level, groups holding
+    # several groups of different sizes followed by siblings (what a pre-order walk over num_children has to get right)
+    def L(rep="req"):
+        return {"rep": rep, "kids": []}
+
+    def G(rep, *kids):
+        return {"rep": rep, "kids": list(kids)}
+    extra = [
+        [G("req", G("req", G("req", L()))), L(), L("opt")],
+        [G("opt", G("req", G("opt", G("req", L("opt")), L()), L()), L("opt")), L()],
+        [G("req", G("req", L(), L("opt"), L()), G("opt", L())), L()],
+        [G("opt", G("opt", L(), L()), G("req", L(), L(), L()), L()), G("req", G("req", L())), L("opt")],
+        [L(), G("req", G("opt", G("opt", L()), L()), G("req", G("req", L("opt")))), L(), G("opt", L())],
+        [G("req", G("req", G("req", G("req", G("req", L()))))), L()],
+    ]
+    for i, f in enumerate(extra):
+        d = decorate_signed(f, i)
+        progs.append(Program(shape_key(d), render(d), d))
     # plus a nested fixed example with tags and an embedded struct
     progs.append(Program("fixed:Nested", "package main\n\ntype L3 struct {\n\tV int64 `parquet:\"v\"`\n\tW *string\n}\n\ntype L2 struct {\n\tK  int32\n\tIn *L3 `parquet:\"in\"`\n\tOn bool\n}\n\ntype Flat struct {\n\tX float64\n\tY *float32\n}\n\n"
                          "type Rec struct {\n\tID  int64 `parquet:\"id\"`\n\tOpt *L2\n\tReq Flat\n\tS   string\n}\n"))
@@ -1558,9 +1640,10 @@ EXCL_TYPES = ["int", "*int64", "[]string", "map[string]int", "chan int", "func(A
 OTHER_SRC = "type Other struct {\n\tZ int64\n\tW *string\n\tq []int32\n}\n"
 
 
-def render_deco(forest):
+def render_deco(forest, outer_first=False):
     """Go source of a forest that may contain decoration nodes:
-       {"excl": True, "gofield": "<name> <type> [`tag`]"}  and  {"emb": True, "kids": [...]}"""
+       {"excl": True, "gofield": "<name> <type> [`tag`]"}  and  {"emb": True, "kids": [...]}
+       outer_first: Rec is declared first and every struct before the structs it uses (default: innermost first, Rec last)"""
     types = []
     cnt = [0, 0]
 
@@ -1587,7 +1670,34 @@ def render_deco(forest):
         return "\n".join(out)
 
     body = fields(forest)
+    if outer_first:
+        return "package main\n\ntype Rec struct {\n%s\n}\n\n" % body + "".join(reversed(types)) + OTHER_SRC
     return "package main\n\n" + OTHER_SRC + "".join(types) + "\ntype Rec struct {\n%s\n}\n" % body
+
+
+def strip_deco(n):
+    out = {"rep": n.get("rep", "req"), "kids": [strip_deco(k) for k in n.get("kids", [])]}
+    for f in ("emb", "excl"):
+        if n.get(f):
+            out[f] = True
+    return out
+
+
+def excl_field(h):
+    t = EXCL_TYPES[h % len(EXCL_TYPES)]
+    style = (h // 16) % 6
+    n = h % 1000
+    if style == 0:
+        return "hidden%d %s" % (n, t)
+    if style == 1:
+        return "Skip%d %s `parquet:\"-\"`" % (n, t)
+    if style == 2:
+        return "_pad%d %s" % (n, t)
+    if style == 3:
+        return "ähm%d %s `json:\"x\"`" % (n, t)
+    if style == 4:
+        return "Omit%d %s `json:\"x,omitempty\" parquet:\"-\"`" % (n, t)
+    return "Omit%d %s `parquet:\"-\" yaml:\"n\"`" % (n, t)
 
 
 def at_path(forest, path):
@@ -1604,9 +1714,11 @@ def c14():
     from wfam import Program, _export, split_cases
     ck = Check("C14", "translation_validation")
     q = ck.quick()
-    r = model_check("MC_Deco", {"MaxNodes": 3 if q else 4, "ForgetHoist": "FALSE"}, ["ErasedIsBase", "SameColumns"], workers=8, tag="mcdeco")
+    r = model_check("MC_Deco", {"MaxNodes": 3 if q else 4, "ForgetHoist": "FALSE", "TwoSteps": "FALSE"}, ["ErasedIsBase", "SameColumns"], workers=8, tag="mcdeco")
     ck.cov["spec_states"] = r["distinct"]
-    model_check("MC_Deco", {"MaxNodes": 3, "ForgetHoist": "TRUE"}, ["ErasedIsBase"], tag="mcdeconeg", expect_violation="ErasedIsBase")
+    r = model_check("MC_Deco", {"MaxNodes": 3 if q else 4, "ForgetHoist": "FALSE", "TwoSteps": "TRUE"}, ["ErasedIsBase", "SameColumns"], workers=8, tag="mcdeco2")
+    ck.cov["spec_states"] += r["distinct"]
+    model_check("MC_Deco", {"MaxNodes": 3, "ForgetHoist": "TRUE", "TwoSteps": "FALSE"}, ["ErasedIsBase"], tag="mcdeconeg", expect_violation="ErasedIsBase")
     ck.cov["negative_controls"] = ["MC_Deco with an Erase that forgets to hoist embedded fields: ErasedIsBase violated as required"]
     # base programs: schemas of the bounded grammar that are fine on their own
     forests = export_shapes(3 if q else 4)
@@ -1634,6 +1746,7 @@ def c14():
     # the records sampled here) and round-tripping its own files in this run
     from vlib import load_known
     c05_bad = {k["key"] for k in load_known() if k.get("property") == "C05"}
+    c14_bad = {k["key"] for k in load_known() if k.get("property") == "C14"}
     good = []
     for p in bases:
         if p.key not in c05_bad and all(written_rows_ok(p, ci) is not None for ci in range(len(p.cases))):
@@ -1647,45 +1760,78 @@ def c14():
                    files={"schemas.ndjson": "".join(json.dumps({"id": p.key, "schema": [strip(n) for n in p.forest]}) + "\n" for p in good)})
     sites = {r["id"]: r for r in rows}
     decos = []
+    unsampled = []    # one-step decorations the quick tier does not run itself; they still seed the (tier-independent) choice of two-step ones
     import zlib
     for bi, p in enumerate(good):
         s = sites[p.key]
         excl = sorted(s["excl"])
         emb = sorted(s["embed"])
+        run_excl, run_emb = excl, emb
         if q:
-            excl = ck.rng.sample(excl, min(len(excl), 4))
-            emb = ck.rng.sample(emb, min(len(emb), 2))
+            run_excl = ck.rng.sample(excl, min(len(excl), 4))
+            run_emb = ck.rng.sample(emb, min(len(emb), 2))
         for (path, pos) in excl:
             f = copy.deepcopy(p.forest)
             kids = at_path(f, path)
             # the decoration applied at a site is a fixed function of (base, site): keys are stable across tiers and seeds
             h = zlib.crc32(("%s|%s|%d" % (p.key, path, pos)).encode())
-            t = EXCL_TYPES[h % len(EXCL_TYPES)]
-            style = (h // 16) % 6
-            n = h % 1000
-            if style == 0:
-                gf = "hidden%d %s" % (n, t)
-            elif style == 1:
-                gf = "Skip%d %s `parquet:\"-\"`" % (n, t)
-            elif style == 2:
-                gf = "_pad%d %s" % (n, t)
-            elif style == 3:
-                gf = "ähm%d %s `json:\"x\"`" % (n, t)
-            elif style == 4:
-                gf = "Omit%d %s `json:\"x,omitempty\" parquet:\"-\"`" % (n, t)
-            else:
-                gf = "Omit%d %s `parquet:\"-\" yaml:\"n\"`" % (n, t)
+            gf = excl_field(h)
             kids.insert(pos, {"excl": True, "gofield": gf})
-            decos.append((p, f, "excl %s at %s/%d" % (gf, path, pos)))
+            (decos if [path, pos] in run_excl else unsampled).append((p, f, "excl %s at %s/%d" % (gf, path, pos)))
         for (path, start, ln) in emb:
             f = copy.deepcopy(p.forest)
             kids = at_path(f, path)
             run = kids[start - 1:start - 1 + ln]
             kids[start - 1:start - 1 + ln] = [{"emb": True, "kids": run}]
-            decos.append((p, f, "embed fields %d..%d of %s" % (start, start + ln - 1, path or "Rec")))
+            (decos if [path, start, ln] in run_emb else unsampled).append((p, f, "embed fields %d..%d of %s" % (start, start + ln - 1, path or "Rec")))
+    # ---- second decoration step (MC_Deco TwoSteps): TLC gives the sites of the once-decorated structs; per base one step
+    # inside the struct introduced by the first step (an embedded struct that itself embeds / holds an excluded field) and
+    # one anywhere; these programs declare Rec first and every struct before the structs it uses
+    by_base = {}
+    for d in decos + unsampled:
+        by_base.setdefault(d[0].key, []).append(d)
+    firsts = []
+    for key in sorted(by_base):
+        ds = sorted(by_base[key], key=lambda d: zlib.crc32(d[2].encode()))
+        # first steps that are listed findings on their own (embedding inside a nested struct does not compile) teach nothing more
+        emb1 = [d for d in ds if d[2].startswith("embed") and "%s || %s" % (key, d[2]) not in c14_bad]
+        exc1 = [d for d in ds if d[2].startswith("excl") and "%s || %s" % (key, d[2]) not in c14_bad]
+        firsts += emb1[:1 if q else 2] + exc1[:1]
+    rows2 = _export("ExportDeco", {"SchemaFile": '"schemas.ndjson"', "OutFile": '"deco.ndjson"'}, "deco.ndjson", tag="deco2",
+                    files={"schemas.ndjson": "".join(json.dumps({"id": str(i), "schema": [strip_deco(n) for n in f]}) + "\n"
+                                                     for i, (p, f, what) in enumerate(firsts))})
+    n_two = 0
+    for r2 in rows2:
+        p, f, what = firsts[int(r2["id"])]
+        cands = [("excl", tuple(x)) for x in sorted(r2["excl"])] + [("embed", tuple(x)) for x in sorted(r2["embed"])]
+
+        def inside(c):   # does the site lie within an embedded struct?
+            kids = f
+            for i in c[1][0]:
+                if kids[i - 1].get("emb"):
+                    return True
+                kids = kids[i - 1]["kids"]
+            return False
+        order = sorted(cands, key=lambda c: zlib.crc32(("%s|%s|%s" % (p.key, what, c)).encode()))
+        nested = [c for c in order if inside(c)]
+        picks = nested[:2] + [c for c in order if not inside(c)][:1 if q else 2]
+        for kind, site in picks:
+            f2 = copy.deepcopy(f)
+            kids = at_path(f2, site[0])
+            if kind == "excl":
+                gf = excl_field(zlib.crc32(("%s|%s|%s" % (p.key, what, site)).encode()))
+                kids.insert(site[1], {"excl": True, "gofield": gf})
+                w2 = "excl %s at %s/%d" % (gf, site[0], site[1])
+            else:
+                run = kids[site[1] - 1:site[1] - 1 + site[2]]
+                kids[site[1] - 1:site[1] - 1 + site[2]] = [{"emb": True, "kids": run}]
+                w2 = "embed fields %d..%d of %s" % (site[1], site[1] + site[2] - 1, site[0] or "Rec")
+            decos.append((p, f2, "%s ; then %s ; declared outermost first" % (what, w2)))
+            n_two += 1
+    ck.cov["two_step_decorations"] = n_two
     dprogs = []
     for di, (p, f, what) in enumerate(decos):
-        d = Program("%s || %s" % (p.key, what), render_deco(f), f)
+        d = Program("%s || %s" % (p.key, what), render_deco(f, outer_first=what.endswith("declared outermost first")), f)
         d.basekey, d.base, d.what = p.key, p, what
         dprogs.append(d)
     from wfam import build_and_run
@@ -1723,7 +1869,8 @@ def c14():
                 k += 1
     ck.cov["rule"] = ("pairs (plain program, decorated program): base = schemas of the bounded grammar that work on their own; decorations from TLC (ExportDeco): an "
                       "excluded field (unexported incl. _names and non-ASCII lower-case names, or tagged parquet:\"-\") of %d Go types at every position of every "
-                      "struct, and every run of fields replaced by an embedded struct; both programs write the same TLC-exported records in two layouts; TLC "
+                      "struct, and every run of fields replaced by an embedded struct, plus a sample of two-step decorations (a second step inside the embedded struct "
+                      "of the first - nested embedding, excluded field inside an embedded struct - or elsewhere; structs declared outermost first); both programs write the same TLC-exported records in two layouts; TLC "
                       "judges byte-identical files, unchanged effective schema, excluded fields zero after Scan" % len(EXCL_TYPES))
     ck.cov["exhaustive"] = not q
     ck.sample({"base": good[0].src, "decorated": dprogs[0].src, "decoration": dprogs[0].what})
@@ -1779,7 +1926,16 @@ def replay(prop, path):
         c = dict(r["case"])
         c["id"] = "0:0"
         env = {"VERIF_GOMAXPROCS": "1"} if "sched" in c else None
-        evs = [e for e in run_driver(b, {"cases": [c]}, "replay", env_extra=env) if e.get("ev") != "DriverDied"]
+        evs = run_driver(b, {"cases": [c]}, "replay", env_extra=env)
+        dead = [e for e in evs if e.get("ev") == "DriverDied"]
+        if dead:
+            from wfam import FATAL_MARKS
+            print("the driver process died: %s" % dead[0]["detail"][:600])
+            if any(m in dead[0]["detail"] for m in FATAL_MARKS):
+                print("VIOLATION property=%s replay=%s" % (prop, path))
+                sys.exit(1)
+            sys.exit(2)
+        evs = [e for e in evs if e.get("ev") != "DriverDied"]
         vs, _ = judge(evs, [prop, "HARNESS"], tag="replay", chunks=1)
         vs = [v for v in vs if v["prop"] == prop]
         for v in vs:
